@@ -59,7 +59,7 @@ pub fn run_c14(ctx: &Ctx) -> Report {
         }
         let cmds = vec![Cmd::prepare(b"p"), if bin { Cmd::execute(1, &[], false) } else { Cmd::query(b"q") }, Cmd::ping()];
         let scripts = vec![Script::PrepOk { id: 1, params: vec![], cols: vec![] }, Script::Q(QProg { colsets: vec![], ops, on_err: OnErr::Drop })];
-        let obs = run_case(&Case::new(cmds, scripts));
+        let obs = run_case(&varied_case(rng, cmds, scripts));
         rep.evaluations += 1;
         if harness_panic(&obs, rep) {
             return;
@@ -190,7 +190,7 @@ pub fn run_c14(ctx: &Ctx) -> Report {
         }
         let cmds = vec![Cmd::prepare(b"p"), if bin { Cmd::execute(1, &[], false) } else { Cmd::query(b"q") }, Cmd::ping()];
         let scripts = vec![Script::PrepOk { id: 1, params: vec![], cols: vec![] }, Script::Q(QProg { colsets: vec![vec![], cols1.clone()], ops, on_err: OnErr::Drop })];
-        let obs = run_case(&Case::new(cmds, scripts));
+        let obs = run_case(&varied_case(rng, cmds, scripts));
         rep.evaluations += 1;
         if harness_panic(&obs, rep) {
             return;
@@ -386,6 +386,7 @@ pub fn run_c09(ctx: &Ctx) -> Report {
         }
         let mut case = Case::new(cmds, scripts);
         // what the client announced in its handshake (layout, capabilities) must not matter
+        vary_transport(rng, &mut case);
         let (hs, hs_class) = random_handshake(rng);
         case.handshake = hs;
         rep.counters.class(format!("handshake {}", hs_class));
